@@ -461,6 +461,24 @@ static void run_objects(int ntok, char **tok)
 				else { reg_obj(KBUF, n); aslot[a - 6]._buf = n; vh_tok("R1"); }
 			}
 		}
+		else if (!strcmp(op, "detachf")) {
+			/* detach of a typed buffer with a partial last element: mpt_buffer_set() refuses the copy */
+			static const MPT_STRUCT(type_traits) four = { 0, 0, 4 };
+			int a = ARGI(0);
+			t += 1;
+			if (bank(a) != 1 || slot_kind(a) != KBUF) vh_tok("X");
+			else {
+				MPT_STRUCT(buffer) *b = aslot[a - 6]._buf, *n;
+				int o = slot_obj(a);
+				b->_content_traits = &four;
+				b->_used = 6;
+				n = b->_vptr->detach(b, 8);
+				if (alive(o)) { b->_content_traits = 0; b->_used = 4; }
+				if (!n) vh_tok("E");
+				else if (n == b) vh_tok("R0");
+				else { n->_content_traits = 0; n->_used = 4; reg_obj(KBUF, n); aslot[a - 6]._buf = n; vh_tok("R1"); }
+			}
+		}
 		else if (!strcmp(op, "setin")) {
 			int m = ARGI(0), a = ARGI(1);
 			t += 2;
